@@ -692,6 +692,48 @@ mod verif_harness {
     }
 
     // @tier quick
+    // @obligation the deserializer never percent-decodes: a value that still looks like an escape after the one decoding pass of the extractor ("%41", "100%25", "a%2Fb") reaches String, &str and Cow fields byte for byte, on the borrowed and on the owned path (decoding happens exactly once, upstream)
+    // @bounds 3 fixed escape-looking values x {String, &str} fields x {borrowed, owned} representation, chosen symbolically
+    // @functions ValueDeserializer::{deserialize_string,deserialize_str}
+    #[kani::proof]
+    #[kani::unwind(8)]
+    #[kani::stub(std::fmt::format, fmt_stub)]
+    fn c15_value_is_not_decoded_again() {
+        // constants on every branch (value and representation): whatever the deserializer does to the
+        // string is then executed on concrete data
+        let pick: u8 = kani::any();
+        kani::assume(pick < 6);
+        match pick {
+            0 => not_decoded_again("%41", false),
+            1 => not_decoded_again("%41", true),
+            2 => not_decoded_again("100%25", false),
+            3 => not_decoded_again("100%25", true),
+            4 => not_decoded_again("a%2Fb", false),
+            _ => not_decoded_again("a%2Fb", true),
+        }
+        kani::cover!(pick == 3, "owned 100%25");
+    }
+    fn not_decoded_again(v: &'static str, owned: bool) {
+        #[derive(Deserialize)]
+        struct Two<'a> {
+            a: String,
+            b: &'a str,
+        }
+        let va: Cow<'_, str> = if owned { Cow::Owned(v.to_owned()) } else { Cow::Borrowed(v) };
+        let params: [(&str, Cow<'_, str>); 2] = [("a", va), ("b", Cow::Borrowed(v))];
+        let r = Two::deserialize(PathDeserializer::new(&params));
+        match &r {
+            Ok(o) => {
+                assert!(same_bytes(o.a.as_bytes(), v.as_bytes()), "a String field was decoded a second time (or otherwise altered)");
+                assert!(same_bytes(o.b.as_bytes(), v.as_bytes()), "a &str field was altered");
+            }
+            Err(_) => assert!(false, "an escape-looking value was rejected"),
+        }
+        std::mem::forget(r);
+        std::mem::forget(params);
+    }
+
+    // @tier quick
     // @obligation with two parameters, a malformed value is reported against ITS OWN key and type (ParseErrorAtKey{key, value's type}), whichever of the two fields is the malformed one and whatever the order of arrival; the well-formed one never turns the error into a success
     // @bounds 2 parameters (u8 and bool fields) in symbolic order; one of them symbolic 0..=2 ASCII bytes, the other well-formed
     // @functions MapDeserializer::next_value_seed, ValueDeserializer::{deserialize_u8,deserialize_bool} error path of parse_value!
